@@ -10,6 +10,7 @@ import (
 
 	"deps.dev/util/resolve"
 	"deps.dev/util/resolve/schema"
+	"deps.dev/util/semver"
 	"github.com/google/osv-scalibr/guidedremediation/upgrade"
 	"github.com/ossf/osv-schema/bindings/go/osvschema"
 )
@@ -185,6 +186,11 @@ func genReq(r *rand.Rand, sys resolve.System, vers []string, allowTag bool) stri
 		base = base[:i]
 	}
 	if sys == resolve.NPM {
+		if r.Intn(6) == 0 {
+			if q := genNpmCompound(r, vers); q != "" {
+				return q
+			}
+		}
 		switch r.Intn(10) {
 		case 0, 1, 2:
 			return v // pinned
@@ -219,8 +225,46 @@ func genReq(r *rand.Rand, sys resolve.System, vers []string, allowTag bool) stri
 	}
 }
 
+// genNpmCompound draws a requirement whose matching set need not be contiguous in the version list: a
+// disjunction (||) of ranges around two different versions, a hyphen range, a comparator pair, or a
+// "below a or from b" set.
+func genNpmCompound(r *rand.Rand, vers []string) string {
+	ri := ranksOf(semver.NPM, vers)
+	var st []string // stable versions, ascending
+	for _, v := range vers {
+		if ri.parses[v] && !strings.ContainsAny(v, "-+") {
+			st = append(st, v)
+		}
+	}
+	sort.SliceStable(st, func(a, b int) bool { return ri.rank[st[a]] < ri.rank[st[b]] })
+	if len(st) < 2 {
+		return ""
+	}
+	i := r.Intn(len(st) - 1)
+	j := i + 1 + r.Intn(len(st)-i-1)
+	a, b := st[i], st[j]
+	count("npm_compound_requirement", "yes")
+	switch r.Intn(6) {
+	case 0:
+		return "^" + a + " || ^" + b
+	case 1:
+		return "~" + a + " || ~" + b
+	case 2:
+		return a + " || " + b
+	case 3:
+		return a + " - " + b
+	case 4:
+		return ">=" + a + " <" + b
+	default:
+		return "<=" + a + " || >=" + b
+	}
+}
+
 func pkgName(sys resolve.System, i int) string {
 	if sys == resolve.NPM {
+		if i == 1 {
+			return "@sc/pb" // a scoped name
+		}
 		return fmt.Sprintf("p%c", 'a'+i)
 	}
 	return fmt.Sprintf("org.x:p%c", 'a'+i)
@@ -305,6 +349,8 @@ type mDep struct {
 	Req  string `json:"req"`
 	Dev  bool   `json:"dev,omitempty"`
 	Mgmt bool   `json:"mgmt,omitempty"` // Maven: entry in dependencyManagement only
+	// npm: the dependency is declared under this alias name ("alias": "npm:name@req")
+	Alias string `json:"alias,omitempty"`
 	// Maven: a further declaration of the package inside a profile / a pluginManagement plugin
 	Profile bool `json:"profile,omitempty"`
 	Plugin  bool `json:"plugin,omitempty"`
@@ -366,6 +412,9 @@ func (m manifestSpec) render(sys resolve.System) string {
 		var deps, dev []string
 		for _, d := range m.Deps {
 			line := fmt.Sprintf("    %q: %q", d.Name, d.Req)
+			if d.Alias != "" {
+				line = fmt.Sprintf("    %q: %q", d.Alias, "npm:"+d.Name+"@"+d.Req)
+			}
 			if d.Dev {
 				dev = append(dev, line)
 			} else {
